@@ -1,5 +1,1260 @@
 package byz
 
-import "verif/harness/mon"
+import (
+	"errors"
+	"fmt"
+	"net"
+	"os"
+	"sort"
+	"strconv"
+	"math/rand/v2"
+	"strings"
+	"sync"
+	"sync/atomic"
+	"time"
 
-func runC11(r *mon.Run, replay string) {}
+	"go.sia.tech/core/consensus"
+	"go.sia.tech/core/gateway"
+	"go.sia.tech/core/types"
+	"verif/harness/lab/chainlab"
+	"verif/harness/lab/p2plab"
+	"verif/harness/mon"
+)
+
+// A fault is one row of the C11 table: the RPC that is attacked, how, and what
+// the property lets us demand.
+type fault struct {
+	Target string // RPC kind
+	Name   string
+	Pos    bool   // swept over first/middle/last of the batch
+	Regime string // "", "below", "above", "v2" (needs v2 blocks at the victim's tip)
+	// Ban: the offence is provable and the syncer is expected to report the
+	// peer (class of the expected ban reason).
+	Ban string
+	// ByzView: which chain the Byzantine peer pretends to hold: "honest" (the
+	// honest heavier chain) or "invalid" (own chain with an invalid block)
+	View string
+}
+
+var c11Faults = []fault{
+	// ---- victim-issued SendHeaders
+	{Target: "SendHeaders", Name: "silence"},
+	{Target: "SendHeaders", Name: "close"},
+	{Target: "SendHeaders", Name: "confused-type"},
+	{Target: "SendHeaders", Name: "garbage"},
+	{Target: "SendHeaders", Name: "oversized"},
+	{Target: "SendHeaders", Name: "insufficient-work", Pos: true},
+	{Target: "SendHeaders", Name: "broken-linkage", Pos: true},
+	{Target: "SendHeaders", Name: "not-extending-request"},
+	{Target: "SendHeaders", Name: "from-genesis"},
+	{Target: "SendHeaders", Name: "swapped-order"},
+	{Target: "SendHeaders", Name: "empty"},
+	{Target: "SendHeaders", Name: "remaining-lie"},
+	// ---- victim-issued SendV2Blocks
+	{Target: "SendV2Blocks", Name: "silence"},
+	{Target: "SendV2Blocks", Name: "close"},
+	{Target: "SendV2Blocks", Name: "confused-type"},
+	{Target: "SendV2Blocks", Name: "garbage"},
+	{Target: "SendV2Blocks", Name: "fewer"},
+	{Target: "SendV2Blocks", Name: "more"},
+	{Target: "SendV2Blocks", Name: "zero"},
+	{Target: "SendV2Blocks", Name: "reordered"},
+	{Target: "SendV2Blocks", Name: "sibling-block", Pos: true},
+	{Target: "SendV2Blocks", Name: "same-id-other-body", Pos: true, Regime: "below", Ban: "blocks-rejected-by-manager"},
+	{Target: "SendV2Blocks", Name: "invalid-block", Pos: true, Regime: "below", Ban: "blocks-rejected-by-manager", View: "invalid"},
+	{Target: "SendV2Blocks", Name: "invalid-block", Pos: true, Regime: "above", Ban: "invalid-block-in-validated-batch", View: "invalid"},
+	// ---- victim-issued SendCheckpoint (instant / parallel sync above the require height)
+	{Target: "SendCheckpoint", Name: "silence", Regime: "above"},
+	{Target: "SendCheckpoint", Name: "close", Regime: "above"},
+	{Target: "SendCheckpoint", Name: "confused-type", Regime: "above"},
+	{Target: "SendCheckpoint", Name: "garbage", Regime: "above"},
+	{Target: "SendCheckpoint", Name: "wrong-id", Regime: "above"},
+	{Target: "SendCheckpoint", Name: "v1-block", Regime: "above"},
+	{Target: "SendCheckpoint", Name: "two-payouts", Regime: "above"},
+	{Target: "SendCheckpoint", Name: "state-of-other-block", Regime: "above"},
+	{Target: "SendCheckpoint", Name: "state-tweaked", Regime: "above"},
+	{Target: "SendCheckpoint", Name: "block-other-body", Regime: "above"},
+	// ---- victim-issued SendTransactions (after an outline with missing transactions)
+	{Target: "SendTransactions", Name: "wrong-transactions", Regime: "v2", Ban: "wrong-missing-transactions"},
+	{Target: "SendTransactions", Name: "empty", Regime: "v2", Ban: "wrong-missing-transactions"},
+	{Target: "SendTransactions", Name: "partial", Regime: "v2", Ban: "wrong-missing-transactions"},
+	{Target: "SendTransactions", Name: "silence", Regime: "v2"},
+	{Target: "SendTransactions", Name: "close", Regime: "v2"},
+	{Target: "SendTransactions", Name: "confused-type", Regime: "v2"},
+	{Target: "SendTransactions", Name: "honest-control", Regime: "v2"},
+	// ---- victim-served relays
+	{Target: "RelayV2Header", Name: "insufficient-work", Regime: "v2", Ban: "header-insufficient-work"},
+	{Target: "RelayV2Header", Name: "unknown-parent", Regime: "v2"},
+	{Target: "RelayV2Header", Name: "valid-no-follow-up", Regime: "v2"},
+	{Target: "RelayV2Header", Name: "malformed", Regime: "v2"},
+	{Target: "RelayV2BlockOutline", Name: "insufficient-work", Regime: "v2", Ban: "outline-insufficient-work"},
+	{Target: "RelayV2BlockOutline", Name: "invalid-block", Regime: "v2", Ban: "relayed-block-rejected"},
+	{Target: "RelayV2BlockOutline", Name: "unknown-parent", Regime: "v2"},
+	{Target: "RelayV2BlockOutline", Name: "malformed", Regime: "v2"},
+	{Target: "RelayV2BlockOutline", Name: "oversized", Regime: "v2"},
+	{Target: "RelayV2TransactionSet", Name: "empty", Regime: "v2", Ban: "empty-transaction-set"},
+	{Target: "RelayV2TransactionSet", Name: "invalid-signature", Regime: "v2"},
+	{Target: "RelayV2TransactionSet", Name: "unknown-basis", Regime: "v2"},
+	{Target: "RelayV2TransactionSet", Name: "valid-control", Regime: "v2"},
+	{Target: "RelayV2TransactionSet", Name: "malformed", Regime: "v2"},
+	{Target: "ShareNodes", Name: "malformed-addresses"},
+	{Target: "ShareNodes", Name: "oversized"},
+	{Target: "ShareNodes", Name: "garbage"},
+	// ---- self-check of the Byzantine peer implementation
+	{Target: "control", Name: "honest"},
+}
+
+type c11Case struct {
+	Stream       uint64          `json:"rng_stream"`
+	Target       string          `json:"target"`
+	Fault        string          `json:"fault"`
+	Pos          string          `json:"position,omitempty"`
+	Regime       string          `json:"regime"` // below / above the require height
+	NetRegime    string          `json:"net_regime"`
+	Params       chainlab.Params `json:"params"`
+	Mix          string          `json:"peer_mix"` // B, B+H, 2B+H
+	Phased       bool            `json:"byzantine_first"`
+	VictimDials  bool            `json:"victim_dials_byzantine"`
+	HonestDials  bool            `json:"honest_dials_victim"`
+	Second       string          `json:"second_byzantine_fault,omitempty"`
+	VictimTip    int             `json:"victim_tip_node"`
+	VictimHeight uint64          `json:"victim_height"`
+	HonestTip    int             `json:"honest_tip_node"`
+	HonestHeight uint64          `json:"honest_height"`
+	ByzTip       int             `json:"byzantine_view_tip_node"`
+	Special      string          `json:"special,omitempty"`
+}
+
+const (
+	c11ProgressBound = 60 * time.Second
+	c11SilenceBonus  = 35 * time.Second // SendHeaders timeout is fixed at 30 s in the syncer
+)
+
+func (f fault) key() string { return f.Target + "/" + f.Name }
+
+func runC11(r *mon.Run, replay string) {
+	r.Rule("each case: a chainlab tree (victim chain, a sufficiently heavier valid chain held by the honest peer, and the Byzantine peer's material: corrupted blocks labelled by the pure oracle, header-only extensions, bad-work headers, same-id blocks with another body), one real victim syncer with an audited chain manager and an effective recording peer store, a Byzantine gateway peer on its own 127.x address scripted with ONE fault of the table (RPC x corruption x position first/middle/last) below or above the v2 require height, peer mix B / B+H / 2B+H, Byzantine first or simultaneous, either side dialling. Non-trivial = the scripted fault was actually delivered to the victim (counter faulted:<rpc>); signature = rpc/fault/position/regime/mix.")
+	r.Assume("bounded progress: with the honest peer connected the victim must reach the honest tip within 60 s (+35 s per SendHeaders request the Byzantine peer leaves unanswered, because that timeout is fixed at 30 s in the syncer); the honest peer re-announces its tip every 200 ms and the harness re-dials a lost honest connection every second")
+	r.Assume("a ban is only demanded for offences the property calls provable and only when the Byzantine peer acted while the victim's tip was stable (Byzantine-first phase): insufficient-work relayed header/outline on the victim's tip, invalid relayed block, wrong/missing outline transactions, invalid or same-id-other-body block in a batch the victim tries to adopt, empty transaction set")
+	r.Assume("a Byzantine peer never advertises an honest peer's dial-back address (known C18 shutdown issue, excluded here); Close of every syncer runs under a 20 s watchdog")
+	r.Assume("resource exhaustion by volume and eclipse attacks (cloned unique id, address-space exhaustion) are out of scope")
+
+	if replay != "" {
+		var cc c11Case
+		if err := loadReplay(replay, &cc); err != nil {
+			r.Inconclusive("cannot read replay: " + err.Error())
+			return
+		}
+		for i := 0; i < 5; i++ {
+			runByzCase(r, cc)
+		}
+		return
+	}
+
+	cases := genC11Cases(r)
+	if only := os.Getenv("VERIF_C11_ONLY"); only != "" {
+		// development filter (never set by ./check users): keeps matching rows only
+		var keep []c11Case
+		for _, c := range cases {
+			if strings.Contains(c.Target+"/"+c.Fault+"/"+c.Special, only) {
+				keep = append(keep, c)
+			}
+		}
+		cases = keep
+		r.Inconclusive("development filter VERIF_C11_ONLY is set")
+	}
+	parallel(len(cases), r.Pick(12, 12), func(i int) { runByzCase(r, cases[i]) })
+	r.Floor("faults_delivered", int64(len(cases)/2))
+	r.Floor("cases_with_honest_peer_reaching_honest_tip", int64(len(cases)/4))
+	r.Floor("bans_observed_total", 8)
+	r.Floor("manager_calls_audited:AddBlocks", 10)
+	r.Floor("manager_calls_audited:AddValidatedV2Blocks", 5)
+}
+
+func genC11Cases(r *mon.Run) []c11Case {
+	rng := r.RNG(11)
+	var cases []c11Case
+	stream := uint64(5000)
+	reps := r.Pick(1, 6)
+	for rep := 0; rep < reps; rep++ {
+		for _, f := range c11Faults {
+			positions := []string{""}
+			if f.Pos {
+				positions = []string{"first", "middle", "last"}
+			}
+			regimes := []string{"below", "above"}
+			switch f.Regime {
+			case "below":
+				regimes = []string{"below"}
+			case "above":
+				regimes = []string{"above"}
+			}
+			for _, pos := range positions {
+				for _, reg := range regimes {
+					mixes := []string{"B", "B+H", "2B+H"}
+					if !r.Thorough() {
+						// quick: one PRNG-chosen mix per row, biased to the ones with an honest peer
+						mixes = []string{[]string{"B", "B+H", "B+H", "2B+H"}[rng.IntN(4)]}
+					}
+					for _, mix := range mixes {
+						stream++
+						cases = append(cases, c11Case{
+							Stream: stream, Target: f.Target, Fault: f.Name, Pos: pos, Regime: reg, Mix: mix,
+							Phased: rng.IntN(4) != 0, VictimDials: rng.IntN(2) == 0, HonestDials: rng.IntN(2) == 0,
+						})
+					}
+				}
+			}
+		}
+		// multi-chunk scenarios around the 100-block request split
+		for i := 0; i < r.Pick(2, 4); i++ {
+			stream++
+			cases = append(cases, c11Case{Stream: stream, Target: "SendV2Blocks", Fault: "same-id-other-body", Pos: "first-chunk", Regime: "below", Mix: "B+H", Phased: false, Special: "two-chunks"})
+		}
+		for i := 0; i < r.Pick(1, 3); i++ {
+			stream++
+			cases = append(cases, c11Case{Stream: stream, Target: "SendCheckpoint", Fault: "state-for-unvalidated-block", Regime: "above", Mix: "B+H", Phased: true, Special: "cross-boundary"})
+		}
+	}
+	return cases
+}
+
+func findFault(target, name, regime string) (fault, bool) {
+	for _, f := range c11Faults {
+		if f.Target == target && f.Name == name && (f.Regime == "" || f.Regime == "v2" || f.Regime == regime) {
+			return f, true
+		}
+	}
+	return fault{}, false
+}
+
+func posIndex(pos string, n int) int {
+	switch pos {
+	case "first":
+		return 0
+	case "last":
+		return n - 1
+	default:
+		return n / 2
+	}
+}
+
+// scene is everything built for one case.
+type scene struct {
+	cc   *c11Case
+	f    fault
+	rng  *rand.Rand
+	t    *chainlab.Tree
+	vTip *chainlab.Node
+	hTip *chainlab.Node
+	bTip *chainlab.Node // view of the Byzantine peer
+	// action is run by the Byzantine peer once connected (relay faults)
+	action func(b *p2plab.Byz) error
+	// delivered reports whether the fault reached the victim
+	delivered func(b *p2plab.Byz) bool
+	// override: states the attacker hands out for specific checkpoint blocks
+	override map[types.BlockID]consensus.State
+	skip     string
+}
+
+func buildScene(r *mon.Run, cc *c11Case) *scene {
+	rng := r.RNG(cc.Stream)
+	f, ok := findFault(cc.Target, cc.Fault, cc.Regime)
+	if !ok && cc.Special == "" {
+		return &scene{cc: cc, skip: "unknown fault"}
+	}
+	if cc.Special != "" {
+		f = fault{Target: cc.Target, Name: cc.Fault, Regime: cc.Regime}
+	}
+	sc := &scene{cc: cc, f: f, rng: rng}
+	var p chainlab.Params
+	prof := chainlab.Profile{MaxTxns: 3}
+	trunk := 0
+	switch {
+	case cc.Special == "two-chunks":
+		p = chainlab.RandomParams("mix", rng)
+		p.Allow = uint64(3 + rng.IntN(4))
+		p.Require = 5000
+		p.FinalCut = 5002
+		cc.NetRegime = "mix-late-require"
+	case cc.Special == "cross-boundary":
+		p = chainlab.RandomParams("mix", rng)
+		p.Allow = uint64(3 + rng.IntN(4))
+		p.Require = uint64(60 + rng.IntN(30))
+		p.FinalCut = p.Require + 2
+		cc.NetRegime = "mix-require-inside-first-chunk"
+	case cc.Regime == "below":
+		p = chainlab.RandomParams("mix", rng)
+		p.Allow = uint64(3 + rng.IntN(5))
+		p.Require = p.Allow + 400
+		p.FinalCut = p.Require + 2
+		cc.NetRegime = "mix-late-require"
+		trunk = int(p.Allow) + 1 + rng.IntN(6)
+		if f.Regime != "v2" && f.Name != "same-id-other-body" && rng.IntN(4) == 0 {
+			trunk = 1 + rng.IntN(int(p.Allow)-1) // victim still in the v1-only part
+		}
+	default:
+		if rng.IntN(2) == 0 {
+			p = chainlab.RandomParams("v2only", rng)
+			cc.NetRegime = "v2only"
+			trunk = 2 + rng.IntN(10)
+		} else {
+			p = chainlab.RandomParams("mix", rng)
+			cc.NetRegime = "mix"
+			trunk = int(p.Require) + 1 + rng.IntN(8)
+		}
+	}
+	cc.Params = p
+	env := chainlab.NewEnv(p)
+	t := chainlab.NewTree(env, rng)
+	sc.t = t
+	if cc.Special != "" {
+		buildSpecial(sc, prof)
+		return sc
+	}
+	base := p2plab.GrowMixed(t, t.Root, trunk, 2, prof)
+	// the victim may sit on a short fork of its own
+	sc.vTip = p2plab.Grow(t, base, rng.IntN(3), prof)
+	// honest heavier chain, forking at or slightly below the victim's tip
+	hf := sc.vTip
+	if d := rng.IntN(4); d > 0 && rng.IntN(2) == 0 {
+		hf = sc.vTip.Ancestor(sc.vTip.Height - uint64(min(d, int(sc.vTip.Height))))
+	}
+	if f.Target == "SendV2Blocks" && f.Name == "same-id-other-body" {
+		hf = sc.vTip // the swapped block must lie on the part the victim downloads
+	}
+	hLen := 4 + rng.IntN(8)
+	sc.hTip = p2plab.Heavier(t, p2plab.GrowMixed(t, hf, hLen, 2, prof), 1, prof, sc.vTip)
+	sc.bTip = sc.hTip
+	sc.delivered = func(b *p2plab.Byz) bool { return b.Counter("faulted:"+f.Target) > 0 }
+	buildFault(sc, prof)
+	if sc.skip == "" {
+		// whatever valid block the Byzantine peer may hand over, the honest chain
+		// must stay sufficiently heavier
+		for _, n := range t.Nodes {
+			if n.ChainValid && n != sc.hTip && !sc.hTip.State().SufficientlyHeavierThan(n.State()) && chainlab.CommonAncestor(n, sc.hTip) != n {
+				sc.hTip = p2plab.Heavier(t, sc.hTip, 1, prof, n)
+				if sc.bTip.ChainValid && f.View != "invalid" {
+					sc.bTip = sc.hTip
+				}
+			}
+		}
+	}
+	cc.VictimTip, cc.VictimHeight = sc.vTip.Idx, sc.vTip.Height
+	cc.HonestTip, cc.HonestHeight = sc.hTip.Idx, sc.hTip.Height
+	cc.ByzTip = sc.bTip.Idx
+	return sc
+}
+
+// buildSpecial builds the multi-chunk scenarios.
+func buildSpecial(sc *scene, prof chainlab.Profile) {
+	t, cc := sc.t, sc.cc
+	switch cc.Special {
+	case "two-chunks":
+		// victim: own fork of 140 blocks from genesis; honest chain: 230 blocks.
+		// The first request (100 blocks) alone is lighter than the victim's
+		// chain, so AddBlocks only stores it; the reorg (and full validation of
+		// the first chunk) happens when the second chunk arrives.
+		sc.vTip = p2plab.GrowMixed(t, t.Root, 140, 5, prof)
+		h := p2plab.GrowMixed(t, t.Root, 225+sc.rng.IntN(10), 3, prof)
+		sc.hTip = p2plab.Heavier(t, h, 1, prof, sc.vTip)
+		sc.bTip = sc.hTip
+	case "cross-boundary":
+		// victim: own fork of 150 blocks from genesis. Byzantine chain: 99 valid
+		// blocks, then a 100th block (above the require height) whose commitment
+		// is over a state the attacker made up, then 120 blocks that are valid
+		// relative to that made-up state. The first request (AddBlocks path,
+		// lighter than the victim's chain) is only stored; the second request
+		// starts with SendCheckpoint for the never-validated 100th block.
+		env := t.Env
+		sc.vTip = p2plab.GrowMixed(t, t.Root, 150, 5, prof)
+		x := p2plab.GrowMixed(t, t.Root, 99, 4, prof)
+		ps := x.L.State
+		g := ps
+		g.Attestations += 1000
+		g.SiafundTaxRevenue = g.SiafundTaxRevenue.Add(types.Siacoins(123456))
+		miner := env.A(chainlab.Miner).Addr
+		blk := types.Block{
+			ParentID:     ps.Index.ID,
+			Timestamp:    x.Block.Timestamp.Add(env.Net.BlockInterval),
+			MinerPayouts: []types.SiacoinOutput{{Address: miner, Value: ps.BlockReward()}},
+			V2:           &types.V2BlockData{Height: ps.Index.Height + 1, Commitment: g.Commitment(miner, nil, nil)},
+		}
+		chainlab.MineNonce(ps, &blk)
+		bad := t.Attach(x, blk, "commitment-to-made-up-state", nil)
+		if bad.Valid || !bad.OrphanValid {
+			sc.skip = "made-up-state block not labelled as expected"
+			return
+		}
+		sc.override = map[types.BlockID]consensus.State{bad.ID: g}
+		cur := bad
+		st, _ := consensus.ApplyBlock(g, blk, consensus.V1BlockSupplement{}, time.Time{})
+		for i := 0; i < 125; i++ {
+			nb := env.SealBlock(st, cur.Block.Timestamp.Add(env.Net.BlockInterval), miner, nil, nil, true)
+			n := t.Attach(cur, nb, "valid-on-made-up-state", nil)
+			if !n.OrphanValid {
+				sc.skip = "successor on made-up state fails header validation: " + n.Err
+				return
+			}
+			st, _ = consensus.ApplyBlock(st, nb, consensus.V1BlockSupplement{}, time.Time{})
+			cur = n
+		}
+		if !cur.State().SufficientlyHeavierThan(sc.vTip.State()) {
+			sc.skip = "attacker chain not heavier"
+			return
+		}
+		sc.bTip = cur
+		sc.hTip = p2plab.Heavier(t, p2plab.GrowMixed(t, sc.vTip, 90, 4, prof), 1, prof, sc.vTip, cur)
+	}
+	cc.VictimTip, cc.VictimHeight = sc.vTip.Idx, sc.vTip.Height
+	cc.HonestTip, cc.HonestHeight = sc.hTip.Idx, sc.hTip.Height
+	cc.ByzTip = sc.bTip.Idx
+	sc.delivered = func(b *p2plab.Byz) bool { return b.Counter("faulted:"+sc.f.Target) > 0 }
+}
+
+// buildFault prepares the Byzantine material that has to exist in the tree
+// before the run (the tree is read-only afterwards).
+func buildFault(sc *scene, prof chainlab.Profile) {
+	t, f, rng := sc.t, sc.f, sc.rng
+	v2ok := sc.vTip.Height+1 >= t.Env.Net.HardforkV2.AllowHeight
+	if f.Regime == "v2" && !v2ok {
+		sc.skip = "victim tip below the allow height"
+		return
+	}
+	if f.View == "invalid" {
+		// valid prefix, one block with a fine header and an invalid body, then
+		// header-only blocks until the chain outweighs the victim's
+		n := 3 + rng.IntN(5)
+		k := posIndex(sc.cc.Pos, n)
+		x := p2plab.Grow(t, sc.vTip, k, prof)
+		bad := p2plab.InvalidChild(t, x, rng)
+		if bad == nil {
+			sc.skip = "no body-invalid block found"
+			return
+		}
+		y := bad
+		for i := k + 1; i < n; i++ {
+			y = t.ExtendHeaderOnly(y)
+		}
+		if !y.State().SufficientlyHeavierThan(sc.vTip.State()) {
+			if sc.cc.Pos == "last" {
+				sc.skip = "invalid chain not heavier"
+				return
+			}
+			y = p2plab.Heavier(t, y, 0, prof, sc.vTip)
+		}
+		sc.bTip = y
+		sc.delivered = func(b *p2plab.Byz) bool { return b.Counter("served-invalid-block") > 0 }
+		return
+	}
+	switch f.Target {
+	case "SendTransactions", "RelayV2BlockOutline", "RelayV2Header", "RelayV2TransactionSet":
+		buildRelayFault(sc, prof)
+	}
+}
+
+type relayMaterial struct {
+	child   *chainlab.Node // valid v2 child of the victim's tip with transactions
+	invalid *chainlab.Node
+}
+
+func buildRelayFault(sc *scene, prof chainlab.Profile) {
+	t, f, rng := sc.t, sc.f, sc.rng
+	vs := sc.vTip.L.State
+	child := p2plab.ChildWithTxns(t, sc.vTip)
+	if child == nil {
+		sc.skip = "no v2 child with transactions"
+		return
+	}
+	call := func(b *p2plab.Byz, o gateway.Object) error {
+		err := b.Call(o, 5*time.Second)
+		if err == nil || err != p2plab.ErrNotConnected {
+			b.Count("faulted:"+f.Target, 1)
+		}
+		return err
+	}
+	sc.delivered = func(b *p2plab.Byz) bool { return b.Counter("faulted:"+f.Target) > 0 }
+	switch f.Target + "/" + f.Name {
+	case "RelayV2Header/insufficient-work":
+		bh, ok := p2plab.BadWorkHeader(vs, child.Block.Header())
+		if !ok {
+			sc.skip = "no bad-work nonce"
+			return
+		}
+		sc.action = func(b *p2plab.Byz) error { return call(b, &gateway.RPCRelayV2Header{Header: bh}) }
+	case "RelayV2Header/unknown-parent":
+		bh := sc.hTip.Block.Header()
+		sc.action = func(b *p2plab.Byz) error { return call(b, &gateway.RPCRelayV2Header{Header: bh}) }
+	case "RelayV2Header/valid-no-follow-up":
+		bh := child.Block.Header()
+		sc.action = func(b *p2plab.Byz) error { return call(b, &gateway.RPCRelayV2Header{Header: bh}) }
+	case "RelayV2Header/malformed":
+		sc.action = func(b *p2plab.Byz) error {
+			err := b.CallMismatched(&gateway.RPCRelayV2Header{}, &gateway.RPCSendTransactions{Index: sc.vTip.L.State.Index}, 5*time.Second)
+			b.Count("faulted:"+f.Target, 1)
+			return err
+		}
+	case "RelayV2BlockOutline/insufficient-work":
+		o := gateway.OutlineBlock(child.Block, nil, nil)
+		fct := vs.NonceFactor()
+		o.Nonce = 0
+		found := false
+		for i := 0; i < 1<<20; i++ {
+			if o.ID(vs).CmpWork(vs.PoWTarget()) < 0 {
+				found = true
+				break
+			}
+			o.Nonce += fct
+		}
+		if !found {
+			sc.skip = "no bad-work nonce"
+			return
+		}
+		sc.action = func(b *p2plab.Byz) error { return call(b, &gateway.RPCRelayV2BlockOutline{Block: o}) }
+	case "RelayV2BlockOutline/invalid-block":
+		var bad *chainlab.Node
+		for try := 0; try < 10 && bad == nil; try++ {
+			c := p2plab.InvalidChild(t, sc.vTip, rng)
+			if c != nil && c.Block.V2 != nil && !c.Future {
+				bad = c
+			}
+		}
+		if bad == nil {
+			sc.skip = "no invalid v2 child"
+			return
+		}
+		o := gateway.OutlineBlock(bad.Block, nil, nil)
+		if o.ID(vs) != bad.ID {
+			sc.skip = "outline id differs from block id"
+			return
+		}
+		sc.action = func(b *p2plab.Byz) error { return call(b, &gateway.RPCRelayV2BlockOutline{Block: o}) }
+	case "RelayV2BlockOutline/unknown-parent":
+		if sc.hTip.Block.V2 == nil {
+			sc.skip = "honest tip is not v2"
+			return
+		}
+		o := gateway.OutlineBlock(sc.hTip.Block, nil, nil)
+		sc.action = func(b *p2plab.Byz) error { return call(b, &gateway.RPCRelayV2BlockOutline{Block: o}) }
+	case "RelayV2BlockOutline/malformed":
+		sc.action = func(b *p2plab.Byz) error {
+			err := b.CallMismatched(&gateway.RPCRelayV2BlockOutline{}, &gateway.RPCSendV2Blocks{History: []types.BlockID{sc.vTip.ID, sc.hTip.ID}, Max: 1 << 60}, 5*time.Second)
+			b.Count("faulted:"+f.Target, 1)
+			return err
+		}
+	case "RelayV2BlockOutline/oversized":
+		// an outline carrying far more (duplicate) transactions than a block may weigh
+		o := gateway.OutlineBlock(child.Block, nil, nil)
+		for len(o.Transactions) < 4000 && len(o.Transactions) > 0 {
+			o.Transactions = append(o.Transactions, o.Transactions...)
+		}
+		sc.action = func(b *p2plab.Byz) error { return call(b, &gateway.RPCRelayV2BlockOutline{Block: o}) }
+	case "RelayV2TransactionSet/empty":
+		sc.action = func(b *p2plab.Byz) error {
+			return call(b, &gateway.RPCRelayV2TransactionSet{Index: sc.vTip.L.State.Index})
+		}
+	case "RelayV2TransactionSet/unknown-basis":
+		txns := child.Block.V2Transactions()
+		sc.action = func(b *p2plab.Byz) error {
+			return call(b, &gateway.RPCRelayV2TransactionSet{Index: sc.hTip.L.State.Index, Transactions: txns})
+		}
+	case "RelayV2TransactionSet/valid-control", "RelayV2TransactionSet/invalid-signature":
+		txns := child.Block.V2Transactions()
+		if len(txns) == 0 {
+			sc.skip = "child has no v2 transactions"
+			return
+		}
+		set := []types.V2Transaction{txns[0].DeepCopy()}
+		if f.Name == "invalid-signature" {
+			tx := &set[0]
+			switch {
+			case len(tx.SiacoinInputs) > 0 && len(tx.SiacoinInputs[0].SatisfiedPolicy.Signatures) > 0:
+				tx.SiacoinInputs[0].SatisfiedPolicy.Signatures[0][3] ^= 4
+			case len(tx.SiafundInputs) > 0 && len(tx.SiafundInputs[0].SatisfiedPolicy.Signatures) > 0:
+				tx.SiafundInputs[0].SatisfiedPolicy.Signatures[0][3] ^= 4
+			default:
+				tx.MinerFee = tx.MinerFee.Add(types.Siacoins(1))
+			}
+		}
+		sc.action = func(b *p2plab.Byz) error {
+			return call(b, &gateway.RPCRelayV2TransactionSet{Index: sc.vTip.L.State.Index, Transactions: set})
+		}
+	case "RelayV2TransactionSet/malformed":
+		sc.action = func(b *p2plab.Byz) error {
+			err := b.CallMismatched(&gateway.RPCRelayV2TransactionSet{}, &gateway.RPCSendHeaders{Index: sc.vTip.L.State.Index, Max: 1 << 62}, 5*time.Second)
+			b.Count("faulted:"+f.Target, 1)
+			return err
+		}
+	default:
+		if f.Target != "SendTransactions" {
+			sc.skip = "no builder for " + f.key()
+			return
+		}
+		// outline of a valid block with every transaction withheld; the fault is
+		// in the answer to the victim's SendTransactions
+		o := gateway.OutlineBlock(child.Block, child.Block.Transactions, child.Block.V2Transactions())
+		if len(o.Missing()) == 0 {
+			sc.skip = "nothing missing"
+			return
+		}
+		sc.action = func(b *p2plab.Byz) error {
+			err := b.Call(&gateway.RPCRelayV2BlockOutline{Block: o}, 8*time.Second)
+			b.Count("outline-with-missing-relayed", 1)
+			return err
+		}
+	}
+}
+
+// installHooks scripts the Byzantine peer for the passive (victim-issued) faults.
+func installHooks(sc *scene, b *p2plab.Byz) {
+	f, t := sc.f, sc.t
+	pos := sc.cc.Pos
+	garbage := func() gateway.Object {
+		buf := make([]byte, 3000)
+		for i := range buf {
+			buf[i] = byte(i*131 + 7)
+		}
+		return &gateway.RPCDiscoverIP{IP: string(buf)}
+	}
+	switch f.Target {
+	case "SendHeaders":
+		b.OnSendHeaders = func(b *p2plab.Byz, r *gateway.RPCSendHeaders) p2plab.Reply {
+			reqIdx := r.Index
+			if !b.HonestHeaders(r) {
+				return p2plab.Reply{}
+			}
+			if len(r.Headers) == 0 {
+				return p2plab.Reply{Obj: r}
+			}
+			n := len(r.Headers)
+			i := posIndex(pos, n)
+			parentState := func(i int) *chainlab.Node { return t.ByID[r.Headers[i].ParentID] }
+			switch f.Name {
+			case "silence":
+				return p2plab.Reply{Silence: true, Faulted: true}
+			case "close":
+				return p2plab.Reply{Faulted: true}
+			case "confused-type":
+				blk := &gateway.RPCSendV2Blocks{Remaining: 7}
+				for _, nd := range b.View[1:min(len(b.View), 4)] {
+					blk.Blocks = append(blk.Blocks, nd.Block)
+				}
+				return p2plab.Reply{Obj: blk, Faulted: true}
+			case "garbage":
+				return p2plab.Reply{Obj: garbage(), Faulted: true}
+			case "oversized":
+				for uint64(len(r.Headers)) <= r.Max {
+					r.Headers = append(r.Headers, r.Headers...)
+				}
+				if uint64(len(r.Headers)) > r.Max+50 {
+					r.Headers = r.Headers[:r.Max+50]
+				}
+				return p2plab.Reply{Obj: r, Faulted: true}
+			case "insufficient-work":
+				ps := parentState(i)
+				if ps == nil {
+					return p2plab.Reply{Obj: r}
+				}
+				bh, ok := p2plab.BadWorkHeader(ps.State(), r.Headers[i])
+				if !ok {
+					return p2plab.Reply{Obj: r}
+				}
+				r.Headers[i] = bh
+				return p2plab.Reply{Obj: r, Faulted: true}
+			case "broken-linkage":
+				r.Headers[i].ParentID[5] ^= 0x10
+				return p2plab.Reply{Obj: r, Faulted: true}
+			case "not-extending-request":
+				if n < 2 {
+					return p2plab.Reply{Obj: r}
+				}
+				r.Headers = r.Headers[1:]
+				return p2plab.Reply{Obj: r, Faulted: true}
+			case "from-genesis":
+				if reqIdx.Height == 0 {
+					return p2plab.Reply{Obj: r}
+				}
+				g := &gateway.RPCSendHeaders{Index: t.Root.L.State.Index, Max: r.Max}
+				b.HonestHeaders(g)
+				return p2plab.Reply{Obj: g, Faulted: true}
+			case "swapped-order":
+				if n < 2 {
+					return p2plab.Reply{Obj: r}
+				}
+				j := min(i, n-2)
+				r.Headers[j], r.Headers[j+1] = r.Headers[j+1], r.Headers[j]
+				return p2plab.Reply{Obj: r, Faulted: true}
+			case "empty":
+				r.Headers, r.Remaining = nil, 0
+				return p2plab.Reply{Obj: r, Faulted: true}
+			case "remaining-lie":
+				r.Headers = r.Headers[:(n+1)/2]
+				r.Remaining = []uint64{0, 1 << 40}[n%2]
+				return p2plab.Reply{Obj: r, Faulted: true}
+			}
+			return p2plab.Reply{Obj: r}
+		}
+	case "SendV2Blocks":
+		b.OnSendV2Blocks = func(b *p2plab.Byz, r *gateway.RPCSendV2Blocks) p2plab.Reply {
+			b.HonestBlocks(r)
+			if f.View == "invalid" {
+				for _, blk := range r.Blocks {
+					if nd := t.ByID[blk.ID()]; nd != nil && nd.OrphanValid && !nd.Valid && nd.Corruption != "" {
+						b.Count("served-invalid-block", 1)
+					}
+				}
+				return p2plab.Reply{Obj: r}
+			}
+			n := len(r.Blocks)
+			if n == 0 {
+				return p2plab.Reply{Obj: r}
+			}
+			i := posIndex(pos, n)
+			switch f.Name {
+			case "silence":
+				return p2plab.Reply{Silence: true, Faulted: true}
+			case "close":
+				return p2plab.Reply{Faulted: true}
+			case "confused-type":
+				h := &gateway.RPCSendHeaders{Remaining: 3}
+				for _, blk := range r.Blocks {
+					h.Headers = append(h.Headers, blk.Header())
+				}
+				return p2plab.Reply{Obj: h, Faulted: true}
+			case "garbage":
+				return p2plab.Reply{Obj: garbage(), Faulted: true}
+			case "fewer":
+				r.Blocks = r.Blocks[:n-1]
+				r.Remaining++
+				return p2plab.Reply{Obj: r, Faulted: true}
+			case "more":
+				r.Blocks = append(r.Blocks, r.Blocks[n-1])
+				return p2plab.Reply{Obj: r, Faulted: true}
+			case "zero":
+				r.Blocks = nil
+				return p2plab.Reply{Obj: r, Faulted: true}
+			case "reordered":
+				if n < 2 {
+					return p2plab.Reply{Obj: r}
+				}
+				j := min(i, n-2)
+				r.Blocks[j], r.Blocks[j+1] = r.Blocks[j+1], r.Blocks[j]
+				return p2plab.Reply{Obj: r, Faulted: true}
+			case "sibling-block":
+				nd := t.ByID[r.Blocks[i].ID()]
+				if nd == nil || nd.Parent == nil {
+					return p2plab.Reply{Obj: r}
+				}
+				for _, sib := range nd.Parent.Children {
+					if sib != nd && sib.ChainValid {
+						r.Blocks[i] = sib.Block
+						return p2plab.Reply{Obj: r, Faulted: true}
+					}
+				}
+				// no sibling in the tree: repeat the previous block instead
+				if i > 0 {
+					r.Blocks[i] = r.Blocks[i-1]
+					return p2plab.Reply{Obj: r, Faulted: true}
+				}
+				return p2plab.Reply{Obj: r}
+			case "same-id-other-body":
+				if sc.cc.Special == "two-chunks" {
+					// only the request that starts at genesis (the chunk that is
+					// stored without a reorg) is corrupted
+					if len(r.History) != 1 || r.History[0] != t.Root.ID {
+						return p2plab.Reply{Obj: r}
+					}
+					i = n / 2
+				}
+				// nearest v2 block at or after i, else before
+				cand := -1
+				for j := i; j < n; j++ {
+					if r.Blocks[j].V2 != nil {
+						cand = j
+						break
+					}
+				}
+				for j := i - 1; j >= 0 && cand < 0; j-- {
+					if r.Blocks[j].V2 != nil {
+						cand = j
+					}
+				}
+				if cand < 0 {
+					return p2plab.Reply{Obj: r}
+				}
+				nd := t.ByID[r.Blocks[cand].ID()]
+				sb, ok := p2plab.SwapBody(t, nd)
+				if !ok {
+					return p2plab.Reply{Obj: r}
+				}
+				r.Blocks[cand] = sb
+				return p2plab.Reply{Obj: r, Faulted: true}
+			}
+			return p2plab.Reply{Obj: r}
+		}
+	case "SendCheckpoint":
+		b.OnSendCheckpoint = func(b *p2plab.Byz, r *gateway.RPCSendCheckpoint) p2plab.Reply {
+			if !b.HonestCheckpoint(r) {
+				return p2plab.Reply{}
+			}
+			nd := t.ByID[r.Index.ID]
+			switch f.Name {
+			case "silence":
+				return p2plab.Reply{Silence: true, Faulted: true}
+			case "close":
+				return p2plab.Reply{Faulted: true}
+			case "confused-type":
+				return p2plab.Reply{Obj: &gateway.RPCSendV2Blocks{Blocks: []types.Block{r.Block}, Remaining: 1}, Faulted: true}
+			case "garbage":
+				return p2plab.Reply{Obj: garbage(), Faulted: true}
+			case "wrong-id":
+				if nd.Parent == nil || nd.Parent.Parent == nil || nd.Parent.Block.V2 == nil {
+					return p2plab.Reply{Obj: r}
+				}
+				r.Block, r.State = nd.Parent.Block, nd.Parent.Parent.State()
+				return p2plab.Reply{Obj: r, Faulted: true}
+			case "v1-block":
+				// the genesis block (always v1) with the genesis state
+				r.Block, r.State = t.Env.Genesis, t.Env.Net.GenesisState()
+				return p2plab.Reply{Obj: r, Faulted: true}
+			case "two-payouts":
+				blk := r.Block
+				blk.MinerPayouts = append(append([]types.SiacoinOutput(nil), blk.MinerPayouts...), types.SiacoinOutput{Address: t.Env.A(chainlab.Bob).Addr, Value: types.Siacoins(1)})
+				r.Block = blk
+				return p2plab.Reply{Obj: r, Faulted: true}
+			case "state-of-other-block":
+				r.State = nd.State()
+				return p2plab.Reply{Obj: r, Faulted: true}
+			case "state-tweaked":
+				st := r.State
+				st.SiafundTaxRevenue = st.SiafundTaxRevenue.Add(types.Siacoins(1000))
+				st.Attestations += 3
+				r.State = st
+				return p2plab.Reply{Obj: r, Faulted: true}
+			case "block-other-body":
+				sb, ok := p2plab.SwapBody(t, nd)
+				if !ok {
+					return p2plab.Reply{Obj: r}
+				}
+				r.Block = sb
+				return p2plab.Reply{Obj: r, Faulted: true}
+			case "state-for-unvalidated-block":
+				// honest from the attacker's point of view: the block commits to
+				// the made-up (header-derived) state
+				if st, ok := sc.override[r.Index.ID]; ok {
+					r.State = st
+					return p2plab.Reply{Obj: r, Faulted: true}
+				}
+			}
+			return p2plab.Reply{Obj: r}
+		}
+	case "SendTransactions":
+		b.OnSendTransactions = func(b *p2plab.Byz, r *gateway.RPCSendTransactions) p2plab.Reply {
+			b.HonestTransactions(r)
+			switch f.Name {
+			case "wrong-transactions":
+				// transactions of another block
+				r.Transactions, r.V2Transactions = nil, nil
+				for _, nd := range t.Nodes {
+					if nd.ID != r.Index.ID && nd.Block.V2 != nil && len(nd.Block.V2.Transactions) > 0 {
+						r.V2Transactions = nd.Block.V2.Transactions
+						break
+					}
+				}
+				if len(r.V2Transactions) == 0 {
+					r.Transactions = []types.Transaction{{ArbitraryData: [][]byte{[]byte("NonSia not what you asked for")}}}
+				}
+				return p2plab.Reply{Obj: r, Faulted: true}
+			case "empty":
+				r.Transactions, r.V2Transactions = nil, nil
+				return p2plab.Reply{Obj: r, Faulted: true}
+			case "partial":
+				if len(r.Transactions)+len(r.V2Transactions) < 2 {
+					r.Transactions, r.V2Transactions = nil, nil
+				} else if len(r.V2Transactions) > 0 {
+					r.V2Transactions = r.V2Transactions[1:]
+				} else {
+					r.Transactions = r.Transactions[1:]
+				}
+				return p2plab.Reply{Obj: r, Faulted: true}
+			case "silence":
+				return p2plab.Reply{Silence: true, Faulted: true}
+			case "close":
+				return p2plab.Reply{Faulted: true}
+			case "confused-type":
+				return p2plab.Reply{Obj: &gateway.RPCShareNodes{Peers: []string{"1.2.3.4:5", "x"}}, Faulted: true}
+			case "honest-control":
+				return p2plab.Reply{Obj: r, Faulted: true}
+			}
+			return p2plab.Reply{Obj: r}
+		}
+	case "ShareNodes":
+		b.OnShareNodes = func(b *p2plab.Byz, r *gateway.RPCShareNodes) p2plab.Reply {
+			switch f.Name {
+			case "malformed-addresses":
+				r.Peers = []string{":1234", "host:99999", "host:0", "noport", "", "[::1]:", strings.Repeat("a", 300) + ":9981", "127.0.0.1:-5", "256.256.256.256:9981", "\x00\xff:1"}
+			case "oversized":
+				r.Peers = nil
+				for i := 0; i < 400; i++ {
+					r.Peers = append(r.Peers, fmt.Sprintf("%s.example.invalid:%d", strings.Repeat("b", 100), 1000+i))
+				}
+			case "garbage":
+				return p2plab.Reply{Obj: garbage(), Faulted: true}
+			}
+			return p2plab.Reply{Obj: r, Faulted: true}
+		}
+	}
+}
+
+// secondFaults are the passive faults a second Byzantine peer picks from.
+var secondFaults = []string{"SendHeaders/close", "SendHeaders/garbage", "SendHeaders/empty", "SendHeaders/broken-linkage", "SendV2Blocks/silence", "SendV2Blocks/fewer", "SendV2Blocks/zero", "SendV2Blocks/reordered", "SendV2Blocks/sibling-block", "SendCheckpoint/close", "SendCheckpoint/state-tweaked", "SendCheckpoint/wrong-id"}
+
+func runByzCase(r *mon.Run, cc c11Case) {
+	sc := buildScene(r, &cc)
+	if sc.skip != "" {
+		r.Count("cases_skipped:"+sc.skip, 1)
+		return
+	}
+	f, t := sc.f, sc.t
+	rng := rand.New(rand.NewPCG(uint64(r.Seed)+911, cc.Stream))
+	slot := p2plab.NextSlot()
+	withH := cc.Mix != "B"
+	mk := func(name string, i int, tip *chainlab.Node) (*p2plab.Node, error) {
+		return p2plab.NewNode(p2plab.NodeOpts{
+			Name: name, IP: p2plab.HonestIP(slot, i), Tree: t, Tip: tip,
+			SyncInterval: time.Duration(50+rng.IntN(50)) * time.Millisecond, DiscoveryInterval: time.Duration(50+rng.IntN(50)) * time.Millisecond,
+			RPCTimeout: 2 * time.Second,
+		})
+	}
+	v, err := mk("victim", 0, sc.vTip)
+	if err != nil {
+		r.Inconclusive(fmt.Sprintf("C11 case %d: cannot build victim: %v", cc.Stream, err))
+		return
+	}
+	all := []*p2plab.Node{v}
+	var h *p2plab.Node
+	if withH {
+		if h, err = mk("honest", 1, sc.hTip); err != nil {
+			r.Inconclusive(fmt.Sprintf("C11 case %d: cannot build honest peer: %v", cc.Stream, err))
+			v.Close(5 * time.Second)
+			return
+		}
+		all = append(all, h)
+	}
+	b1, err := p2plab.NewByz("byz1", p2plab.ByzIP(slot, 0), t, sc.bTip)
+	if err != nil {
+		r.Inconclusive(fmt.Sprintf("C11 case %d: cannot build byzantine peer: %v", cc.Stream, err))
+		closeAll(r, all)
+		return
+	}
+	installHooks(sc, b1)
+	byz := []*p2plab.Byz{b1}
+	if cc.Mix == "2B+H" {
+		b2, err := p2plab.NewByz("byz2", p2plab.ByzIP(slot, 1), t, sc.hTip)
+		if err == nil {
+			pick := secondFaults[rng.IntN(len(secondFaults))]
+			parts := strings.SplitN(pick, "/", 2)
+			if f2, ok := findFault(parts[0], parts[1], cc.Regime); ok {
+				cc.Second = pick
+				sc2 := *sc
+				sc2.f = f2
+				cc2 := cc
+				cc2.Pos = []string{"first", "middle", "last"}[rng.IntN(3)]
+				sc2.cc = &cc2
+				installHooks(&sc2, b2)
+			}
+			byz = append(byz, b2)
+		}
+	}
+	if cc.VictimDials {
+		v.PS.AddPeer(b1.Addr)
+	}
+	for _, n := range all {
+		n.Start()
+	}
+	defer func() {
+		for _, b := range byz {
+			b.Close()
+		}
+	}()
+
+	connectByz := func(b *p2plab.Byz, victimDials bool) {
+		if victimDials {
+			// the victim's peer loop dials the stored address on its own
+			for i := 0; i < 100 && !b.Connected(); i++ {
+				time.Sleep(20 * time.Millisecond)
+			}
+			if b.Connected() {
+				return
+			}
+		}
+		if err := b.Dial(v.Addr); err != nil {
+			r.Count("byzantine_dial_errors", 1)
+		}
+	}
+	connectHonest := func() {
+		var err error
+		if cc.HonestDials {
+			err = h.Connect(v.Addr)
+		} else {
+			err = v.Connect(h.Addr)
+		}
+		if err != nil {
+			r.Count("honest_connect_errors", 1)
+		}
+	}
+	doAction := func(b *p2plab.Byz) {
+		if sc.action == nil {
+			return
+		}
+		for i := 0; i < 50; i++ {
+			if err := sc.action(b); err != p2plab.ErrNotConnected {
+				return
+			}
+			time.Sleep(20 * time.Millisecond)
+		}
+	}
+
+	var monitorStop atomic.Bool
+	var wg sync.WaitGroup
+	// 50 ms sampler for the whole case
+	wg.Add(1)
+	go func() {
+		defer wg.Done()
+		for !monitorStop.Load() {
+			v.Mon.Sample()
+			time.Sleep(50 * time.Millisecond)
+		}
+	}()
+
+	expectBan := f.Ban != "" && cc.Phased
+	banSeen := func() bool { return len(v.PS.BansFor(b1.IP)) > 0 }
+	delivered := false
+	phase1 := func() {
+		connectByz(b1, cc.VictimDials)
+		doAction(b1)
+		limit := 12 * time.Second
+		if f.Target == "control" {
+			limit = 30 * time.Second
+		}
+		t0 := time.Now()
+		for time.Since(t0) < limit {
+			if sc.delivered(b1) {
+				delivered = true
+				if f.Target == "control" {
+					if v.CM.Tip().ID == sc.bTip.ID {
+						break
+					}
+				} else if !expectBan || banSeen() {
+					break
+				}
+			}
+			if f.Target == "control" && v.CM.Tip().ID == sc.bTip.ID {
+				delivered = true
+				break
+			}
+			time.Sleep(25 * time.Millisecond)
+		}
+		// let the consequences of the fault play out a little
+		time.Sleep(time.Duration(100+rng.IntN(200)) * time.Millisecond)
+	}
+
+	reached := false
+	var progressMS int64
+	honestPhase := func() {
+		if !withH {
+			return
+		}
+		connectHonest()
+		if len(byz) > 1 {
+			go connectByz(byz[1], false)
+		}
+		t0 := time.Now()
+		var announcing atomic.Bool
+		for iter := 1; ; iter++ {
+			if v.CM.Tip().ID == sc.hTip.ID {
+				reached = true
+				progressMS = time.Since(t0).Milliseconds()
+				return
+			}
+			bound := c11ProgressBound
+			for _, b := range byz {
+				bound += time.Duration(b.Counter("silence:SendHeaders")) * c11SilenceBonus
+			}
+			if time.Since(t0) > bound {
+				return
+			}
+			if iter%4 == 0 && announcing.CompareAndSwap(false, true) {
+				go func() { defer announcing.Store(false); h.Announce() }()
+			}
+			if iter%20 == 0 && !v.HasPeer(h.Addr) && !h.HasPeer(v.Addr) {
+				// like the syncer's own peer loop, never dial a banned address
+				if banned, _ := v.PS.Banned(h.IP); banned {
+					r.Count("honest_redials_blocked_by_ban", 1)
+				} else {
+					r.Count("honest_redials", 1)
+					connectHonest()
+				}
+			}
+			time.Sleep(50 * time.Millisecond)
+		}
+	}
+
+	if cc.Phased {
+		phase1()
+		honestPhase()
+	} else {
+		// everything at once
+		var cw sync.WaitGroup
+		cw.Add(1)
+		go func() { defer cw.Done(); phase1() }()
+		honestPhase()
+		cw.Wait()
+	}
+	if !delivered && sc.delivered(b1) {
+		delivered = true
+	}
+	// the victim must stay where it is for a moment (no late adoption of Byzantine material)
+	time.Sleep(150 * time.Millisecond)
+	monitorStop.Store(true)
+	wg.Wait()
+
+	honestBanned := false
+	var honestBans []p2plab.BanRecord
+	if withH {
+		honestBans = v.PS.BansFor(h.IP)
+		honestBanned = len(honestBans) > 0
+	}
+	byzBans := v.PS.BansFor(b1.IP)
+	if honestBanned {
+		r.Count("cases_where_victim_banned_the_honest_peer", 1)
+		fmt.Printf("note: C11 stream=%d %s/%s victim banned the honest peer: %v (reached=%v)\n", cc.Stream, f.Target, f.Name, honestBans, reached)
+	}
+	var peersNow []string
+	for _, p := range v.S.Peers() {
+		peersNow = append(peersNow, fmt.Sprintf("%s synced=%v err=%v", p.Addr(), p.Synced(), p.Err()))
+	}
+	for _, b := range byz {
+		b.Close()
+	}
+	closeAll(r, all)
+
+	// ---- verdicts and evidence
+	r.Eval()
+	key := f.key()
+	if cc.Pos != "" {
+		key += "@" + cc.Pos
+	}
+	detail := func() map[string]any {
+		d := map[string]any{"victim": reportOf(v), "byzantine_counters": b1.Counters(), "victim_peers_at_end": peersNow, "tree": summarize(t), "byzantine_bans": byzBans}
+		if len(byz) > 1 {
+			d["second_byzantine_counters"] = byz[1].Counters()
+		}
+		if h != nil {
+			d["honest"] = reportOf(h)
+			d["bans_of_honest_peer"] = honestBans
+		}
+		return d
+	}
+	if delivered {
+		r.Count("faults_delivered", 1)
+		r.Distinct(fmt.Sprintf("%s/%s/%s", key, cc.Regime, cc.Mix))
+		r.SetAdd("fault_rows_delivered", key+"/"+cc.Regime)
+	} else {
+		r.Count("faults_not_delivered:"+key, 1)
+	}
+	r.SetAdd("peer_mixes", cc.Mix)
+	for _, b := range byz {
+		for k, n := range b.Counters() {
+			if strings.HasPrefix(k, "answered:") || strings.HasPrefix(k, "faulted:") || strings.HasPrefix(k, "silence:") || strings.HasPrefix(k, "recv:") {
+				r.Count("byzantine_"+k, n)
+			}
+		}
+	}
+	for _, br := range v.PS.Bans() {
+		r.Count("bans_observed:"+banReasonClass(br.Reason), 1)
+		r.Count("bans_observed_total", 1)
+	}
+	for _, a := range v.PS.AddedPeers() {
+		if validAddr(a) != nil {
+			r.Count("invalid_addresses_added_to_peer_store", 1)
+		}
+	}
+	if f.Target == "control" {
+		if v.Mon.Tip() != sc.bTip && !withH {
+			r.Inconclusive(fmt.Sprintf("self-check: the victim did not sync from an honestly behaving harness peer (case %d)", cc.Stream))
+		} else {
+			r.Count("selfcheck_victim_synced_from_harness_peer", 1)
+		}
+	}
+	if withH {
+		if reached {
+			r.Count("cases_with_honest_peer_reaching_honest_tip", 1)
+			switch {
+			case progressMS < 2000:
+				r.Count("progress_time:<2s", 1)
+			case progressMS < 10000:
+				r.Count("progress_time:2-10s", 1)
+			case progressMS < 40000:
+				r.Count("progress_time:10-40s", 1)
+			default:
+				r.Count("progress_time:>40s", 1)
+			}
+		} else {
+			sig := "stall:" + key + ":" + cc.Regime
+			if honestBanned {
+				cls := map[string]bool{}
+				for _, hb := range honestBans {
+					cls[banReasonClass(hb.Reason)] = true
+				}
+				var cs []string
+				for c := range cls {
+					cs = append(cs, c)
+				}
+				sortStrings(cs)
+				sig = "stall:honest-peer-banned:" + strings.Join(cs, "+") + ":" + f.Target + "/" + f.Name
+			}
+			fmt.Printf("note: C11 stream=%d %s mix=%s phased=%v victim=%v want=%d peers=%v\n", cc.Stream, sig, cc.Mix, cc.Phased, v.Mon.Tip() != nil && v.Mon.Tip() == sc.hTip, sc.hTip.Height, peersNow)
+			r.Violation(sig, "with an honest peer holding the heaviest valid chain connected, the victim did not reach that chain within the bound", cc, detail())
+		}
+	}
+	if expectBan && delivered {
+		if len(byzBans) > 0 {
+			r.Count("expected_bans_observed:"+key, 1)
+		} else {
+			fmt.Printf("note: C11 stream=%d no-ban %s %s bans=%v\n", cc.Stream, key, cc.Regime, v.PS.Bans())
+			r.Violation("no-ban:"+key+":"+cc.Regime, "a provable offence ("+f.Ban+") did not lead to PeerStore.Ban for the Byzantine peer's address", cc, detail())
+		}
+	}
+	for _, fd := range v.Mon.Final() {
+		r.Violation(fd.Sig+":"+f.Target+"/"+f.Name, fd.What, cc, map[string]any{"finding": fd.Detail, "run": detail()})
+	}
+	if h != nil {
+		for _, fd := range h.Mon.Final() {
+			r.Violation(fd.Sig+":honest-peer", fd.What, cc, map[string]any{"finding": fd.Detail, "run": detail()})
+		}
+		countMonitor(r, h)
+	}
+	countMonitor(r, v)
+	if cc.Stream%29 == 0 {
+		r.Sample(map[string]any{"case": cc, "delivered": delivered, "reached_honest_tip": reached, "progress_ms": progressMS, "byzantine_counters": b1.Counters(), "bans": v.PS.Bans()})
+	}
+}
+
+func sortStrings(s []string) { sort.Strings(s) }
+
+// validAddr mirrors what a dialable peer address must look like (host:port
+// with a non-empty host of at most 253 bytes and a port in 1..65535).
+func validAddr(addr string) error {
+	host, portStr, err := net.SplitHostPort(addr)
+	if err != nil {
+		return err
+	} else if len(host) == 0 || len(host) > 253 {
+		return errors.New("bad host")
+	}
+	port, err := strconv.Atoi(portStr)
+	if err != nil || port <= 0 || port > 65535 {
+		return errors.New("bad port")
+	}
+	return nil
+}
